@@ -51,10 +51,11 @@ _WRAPPER_CACHE = {}
 def _layout_wrapper(ctx, g, depth=0):
     """name of the parameter g re-arranges when g is nothing but `return <layout primitive>(param, ...)`
     (a private helper wrapping reshape / moveaxis / transpose); None otherwise"""
-    key = (id(ctx.repo), g.qname)
-    if key in _WRAPPER_CACHE:
-        return _WRAPPER_CACHE[key]
-    _WRAPPER_CACHE[key] = None
+    cache = ctx.repo.__dict__.setdefault("_layout_wrapper_cache", {})  # per repository object (per overlay)
+    key = g.qname
+    if key in cache:
+        return cache[key]
+    cache[key] = None
     body = [b for b in g.node.body if not (isinstance(b, ast.Expr) and isinstance(b.value, ast.Constant))]
     rets = [r for r in own_scope_nodes(g.node) if isinstance(r, ast.Return)]
     out = None
@@ -70,7 +71,7 @@ def _layout_wrapper(ctx, g, depth=0):
                 others = [n for n in own_scope_nodes(g.node) if isinstance(n, ast.Name) and n.id == operand.id and isinstance(n.ctx, ast.Store)]
                 if not others:
                     out = operand.id
-    _WRAPPER_CACHE[key] = out
+    cache[key] = out
     return out
 
 
